@@ -11,7 +11,7 @@ import registry  # noqa: E402
 ALL = [json.loads(l)["id"] for l in open(os.path.join(ROOT, "properties.jsonl"))]
 checks = []
 for pid in ALL:
-    if pid not in registry.PROPS:
+    if pid not in registry.PROPS or not registry.PROPS[pid]["theorems"]:
         continue
     info = registry.PROPS[pid]
     checks.append({
@@ -30,7 +30,7 @@ for pid in ALL:
         "technique": info.get("technique", "Coq theorems over a hand-written Gallina model; model tied to the code by a differential correspondence check (extracted OCaml model vs the Rust implementation) and a source translator"),
     })
 na = [{"property_id": pid, "reason": registry.NOT_APPLICABLE.get(pid, "check not built yet in this revision of /verif (work in progress); no claim is made")}
-      for pid in ALL if pid not in registry.PROPS]
+      for pid in ALL if pid not in registry.PROPS or not registry.PROPS[pid]["theorems"]]
 manifest = {
     "version": 1,
     "setup_cmd": "sh tools/setup.sh",
